@@ -247,7 +247,7 @@ fn rewrite_at(e: &E, k: &mut usize, f: &dyn Fn(&E) -> Option<E>) -> Option<E> {
         return f(e);
     }
     *k -= 1;
-    let mut go = |x: &E, k: &mut usize| -> Option<Option<E>> {
+    let go = |x: &E, k: &mut usize| -> Option<Option<E>> {
         if *k == usize::MAX {
             return Some(None);
         }
